@@ -143,6 +143,208 @@ def synthetic(run, ntables, per_table):
     return tot
 
 
+# ---- structured strata -----------------------------------------------------------------------------------
+def chain_table(lang):
+    """a small hand-made class table: the chain New > Foo > Bar > Baz and an unrelated class (so that every
+    argument `Bar` / projection bound `Bar` has proper subtypes AND proper supertypes in the table), one
+    constructor per declared variance (for Java/Groovy all invariant: use-site variance only), a function-like
+    constructor `Fn<in A, out R>`, an invariant `Pair<K, V>`, and the language's built-in Function1"""
+    import src.ir.types as tp
+    bt = gen_types.factory(lang)
+    anyt = bt.get_any_type()
+    decl = lang in ("kotlin", "scala")
+    co, contra = (tp.Covariant, tp.Contravariant) if decl else (tp.Invariant, tp.Invariant)
+    New = tp.SimpleClassifier("New", [anyt])
+    Foo = tp.SimpleClassifier("Foo", [New])
+    Bar = tp.SimpleClassifier("Bar", [Foo])
+    Baz = tp.SimpleClassifier("Baz", [Bar])
+    Unrel = tp.SimpleClassifier("Unrel", [anyt])
+    Inv = tp.TypeConstructor("Inv", [tp.TypeParameter("T")], [anyt])
+    Src = tp.TypeConstructor("Src", [tp.TypeParameter("T", co)], [anyt])
+    Sink = tp.TypeConstructor("Sink", [tp.TypeParameter("T", contra)], [anyt])
+    Fn = tp.TypeConstructor("Fn", [tp.TypeParameter("A", contra), tp.TypeParameter("R", co)], [anyt])
+    Pair = tp.TypeConstructor("Pair", [tp.TypeParameter("K"), tp.TypeParameter("V")], [anyt])
+    F1 = bt.get_function_type(1)
+    return {"lang": lang, "bt": bt, "any": anyt, "decl": decl, "chain": [New, Foo, Bar, Baz], "Unrel": Unrel,
+            "Inv": Inv, "Src": Src, "Sink": Sink, "Fn": Fn, "Pair": Pair, "F1": F1,
+            "classes": [New, Foo, Bar, Baz, Unrel], "cons": [Inv, Src, Sink, Fn, Pair]}
+
+
+def _proj(tp, x, use):
+    if use == "bare":
+        return x
+    if use == "star":
+        return tp.WildCardType()
+    return tp.WildCardType(x, tp.Covariant if use == "out" else tp.Contravariant)
+
+
+def _uses_for(p):
+    """the use-site forms that are well-formed at a parameter of this declared variance"""
+    v = export.VAR(p.variance)
+    return ["bare", "out", "in", "star"] if v == 0 else ["bare", "out", "star"] if v == 1 else ["bare", "in", "star"]
+
+
+def variance_matrix(T):
+    """every declared variance x every use-site form, the argument / bound in the middle of the chain"""
+    import src.ir.types as tp
+    import itertools
+    Bar = T["chain"][2]
+    qs = []
+    for con in (T["Inv"], T["Src"], T["Sink"]):
+        for use in _uses_for(con.type_parameters[0]):
+            qs.append(con.new([_proj(tp, Bar, use)]))
+    for con in (T["Fn"], T["F1"], T["Pair"]):
+        ps = con.type_parameters
+        combos = list(itertools.product(*[[u for u in _uses_for(p) if u != "star"] for p in ps]))
+        for uses in combos:
+            qs.append(con.new([_proj(tp, Bar, u) for u in uses]))
+        qs.append(con.new([tp.WildCardType(), Bar]))
+    return qs
+
+
+def nested_queries(T):
+    """instantiations nested 2-3 deep under invariant / covariant / contravariant parameters, bare and projected"""
+    import src.ir.types as tp
+    New, Foo, Bar, Baz = T["chain"]
+    Inv, Src, Sink, Fn, Pair = T["cons"]
+    out = lambda x: tp.WildCardType(x, tp.Covariant)          # noqa: E731
+    inn = lambda x: tp.WildCardType(x, tp.Contravariant)      # noqa: E731
+    qs = [Inv.new([Inv.new([Foo])]), Inv.new([Src.new([Foo])]), Src.new([Inv.new([Foo])]),
+          Sink.new([Inv.new([Foo])]), Src.new([Src.new([Bar])]), Sink.new([Sink.new([Bar])]),
+          Pair.new([Inv.new([Bar]), Inv.new([Bar])]), Pair.new([Foo, Inv.new([Foo])]),
+          Inv.new([Inv.new([Inv.new([Foo])])]), Src.new([Inv.new([Src.new([Bar])])]),
+          Fn.new([Inv.new([Foo]), Inv.new([Foo])]), Fn.new([Bar, Src.new([Bar])]),
+          Inv.new([out(Inv.new([Bar]))]), Inv.new([inn(Src.new([Bar]))]), Src.new([out(Src.new([out(Bar)]))]),
+          Inv.new([Inv.new([out(Bar)])]), Inv.new([Sink.new([inn(Bar)])])]
+    return qs
+
+
+def _mentioned(t, acc):
+    """the classes and constructors a type mentions (the minimal type list of a query)"""
+    k = kind(t)
+    if k == "p":
+        if not any(c is t.t_constructor or c == t.t_constructor for c in acc):
+            acc.append(t.t_constructor)
+        for a in t.type_args:
+            _mentioned(a, acc)
+    elif k == "w":
+        if t.bound is not None:
+            _mentioned(t.bound, acc)
+    elif k in ("s", "b"):
+        if not any(c == t for c in acc):
+            acc.append(t)
+    return acc
+
+
+def _table_constructor(T, c):
+    """the table's own constructor object for the (copied) constructor of an instantiation"""
+    for d in T["cons"] + [T["F1"]]:
+        if d == c:
+            return d
+    return c
+
+
+def structured(run, langs, find_seeds, irr_seeds):
+    """the structured strata: (1) variance matrix x both directions x flags, several RNG seeds per query;
+    (2) nested instantiations for find_subtypes / find_irrelevant_type, over the minimal type list of the query
+    and over the full table, many RNG seeds per query; (3) direct calls of `_find_candidate_type_args`
+    (every declared variance x use-site form x direction x ignore_variance) and of
+    `get_irrelevant_parameterized_type` (relevant arguments given)"""
+    from src import utils
+    import src.ir.types as tp
+    import src.ir.type_utils as tu
+    rng = run.rng
+    tot = None
+    exc = {}
+    nq = {"find": 0, "irrelevant": 0, "cand": 0, "irrparam": 0}
+    for lang in langs:
+        T = chain_table(lang)
+        bt = T["bt"]
+        boxes = fl.boxes_of(bt)
+        full = T["classes"] + T["cons"] + [T["F1"]] + rng.sample(fl.boxes_of(bt), 2)
+        frames = []
+        distinct = {}
+
+        def call(f, label):
+            try:
+                return f()
+            except Exception as e:
+                exc[type(e).__name__] = exc.get(type(e).__name__, 0) + 1
+
+        with fl.Instrument(cap=100000) as ins:
+            def flush(where):
+                for fr in ins.take():
+                    fr["boxes"] = boxes
+                    fr["where"] = dict(where, lang=lang)
+                    frames.append(fr)
+            # (1) + (2a): the searches
+            for qi, q in enumerate(variance_matrix(T) + nested_queries(T)):
+                for si in range(find_seeds):
+                    seed = rng.randrange(1 << 30)
+                    types = list(full)
+                    rng.shuffle(types)
+                    for direction in ("sub", "super"):
+                        utils.random.r.seed(seed)
+                        nq["find"] += 1
+                        if direction == "sub":
+                            call(lambda: tu.find_subtypes(q, types, include_self=si % 2 == 0, concrete_only=si % 3 != 2),
+                                 "find_subtypes")
+                        else:
+                            call(lambda: tu.find_supertypes(q, types, include_self=si % 2 == 0, concrete_only=si % 3 != 2),
+                                 "find_supertypes")
+                        flush({"stratum": "matrix/nested", "query": export.short(q), "rng_seed": seed})
+            run.tally("seeds_per_query", "find:%d" % find_seeds)
+            # (2b): the irrelevant-type search, minimal and full type lists
+            flat = [T["Inv"].new([T["chain"][2]]), T["Src"].new([T["chain"][2]]), T["Sink"].new([T["chain"][2]]),
+                    T["chain"][2], T["Pair"].new([T["chain"][1], T["chain"][2]]), T["F1"].new([T["chain"][2], T["chain"][1]])]
+            for q in nested_queries(T) + flat:
+                mini = [_table_constructor(T, c) if kind(c) == "c" else c for c in _mentioned(q, [])]
+                for types, n, tag in ((mini, irr_seeds, "minimal"), (mini + [T["Unrel"]], irr_seeds // 2, "minimal+1"),
+                                      (full, irr_seeds // 2, "full")):
+                    seen = set()
+                    for si in range(n):
+                        seed = rng.randrange(1 << 30)
+                        utils.random.r.seed(seed)
+                        nq["irrelevant"] += 1
+                        r = call(lambda: tu.find_irrelevant_type(q, list(types), bt), "find_irrelevant_type")
+                        seen.add(export.short(r))
+                        flush({"stratum": "irrelevant/" + tag, "query": export.short(q), "rng_seed": seed})
+                    run.tally("irrelevant_distinct_answers_per_query", "%d" % len(seen))
+            run.tally("seeds_per_query", "irrelevant:%d/%d/%d" % (irr_seeds, irr_seeds // 2, irr_seeds // 2))
+            # (3a) direct: _find_candidate_type_args, every declared variance x use-site form x direction x ignore
+            Bar = T["chain"][2]
+            for v in (tp.Invariant, tp.Covariant, tp.Contravariant):
+                p = tp.TypeParameter("P", v)
+                for use in ("bare", "out", "in", "star"):
+                    for inner in (Bar, T["Inv"].new([Bar]), T["Src"].new([Bar])):
+                        if use == "star" and inner is not Bar:
+                            continue
+                        base = _proj(tp, inner, use)
+                        for gs in (True, False):
+                            for ign in (False, True):
+                                utils.random.r.seed(rng.randrange(1 << 30))
+                                nq["cand"] += 1
+                                call(lambda: tu._find_candidate_type_args(p, base, list(full), gs, {}, ign), "cand")
+                                flush({"stratum": "direct-cand", "query": "%s / %s" % (export.short(p), export.short(base))})
+            # (3b) direct: get_irrelevant_parameterized_type with the relevant arguments given
+            for con, args in ((T["Inv"], [T["Inv"].new([Bar])]), (T["Inv"], [Bar]), (T["Src"], [Bar]), (T["Sink"], [Bar]),
+                              (T["Pair"], [T["Inv"].new([Bar]), T["Inv"].new([Bar])]), (T["Pair"], [Bar, T["Inv"].new([Bar])]),
+                              (T["Fn"], [Bar, T["Inv"].new([Bar])]), (T["Src"], [T["Src"].new([Bar])])):
+                mini = [_table_constructor(T, c) if kind(c) == "c" else c for c in _mentioned(con.new(args), [])]
+                for si in range(irr_seeds):
+                    utils.random.r.seed(rng.randrange(1 << 30))
+                    nq["irrparam"] += 1
+                    call(lambda: tu.get_irrelevant_parameterized_type(con, list(mini), {con.name: list(args)}, bt), "irrparam")
+                    flush({"stratum": "direct-irrparam", "query": "%s<%s>" % (con.name, ", ".join(export.short(a) for a in args))})
+        st = eval_frames(run, frames, "structured", origin={"stream": "structured"})
+        tot = st if tot is None else {k2: tot[k2] + st[k2] for k2 in st}
+    run.cov["structured"] = dict(tot, languages=list(langs), queries=nq, top_level_exceptions=exc)
+    run.log("stream structured (%s): %s calls, %d frames, %d requests, %d exact differ, %d answers rejected, %d returned types "
+            "judged; exceptions %s" % (",".join(langs), nq, tot["frames"], tot["requests"], tot["exact_diffs"], tot["rejected"],
+                                        tot["returned_types"], exc))
+    return tot
+
+
 # ---- witnesses of the recorded findings (also proved rejected in Props/C09.lean) ------------------------------------
 def witness_tables():
     """(name, function, factory, query, types, predicate on the answer): the recorded findings, by hand"""
@@ -318,6 +520,8 @@ def check(run):
         run.assumptions.append("the tree implements the repaired find_irrelevant_type; switch Heph.Find.Variant.current to "
                                ".repaired")
     witnesses(run)
+    structured(run, ("kotlin", "java") if quick else ("kotlin", "java", "scala", "groovy"), 4 if quick else 12,
+               12 if quick else 40)
     synthetic(run, 30 if quick else 320, 40 if quick else 60)
     generator_stream(run, 12 if quick else 96)
     if not proofs_ok and not run.violations:
